@@ -302,6 +302,6 @@ _promote("C03", lambda e: getattr(e, "vx_scenario", "") == "ignore_rule_bounded"
 _promote("C20", lambda e: getattr(e, "vx_scenario", "") == "origins_markers_bounded")
 _promote("C11", lambda e: getattr(e, "vx_scenario", "") == "globset_rule_bounded")
 PROPS["C14"]["thorough_engines"] = PROPS["C14"]["thorough_engines"] + [replay_engine("ignorefiles", "discovery_rule_bounded", "C14.bounded.discovery_equals_the_reachability_rule",
-    "from_origin on one tree (nested directories, a prefix-named sibling) under 150 ignore-file configurations (origin, a/, a/b/; plain, directory-only, rooted and negated patterns): exactly the ignore files of the directories reachable without entering an ignored one - judged by an independent nearest-file-first evaluation with the ignore crate's matcher one file at a time - each tagged with its directory (this composition over the whole tree is what the per-function contracts do not prove: D16)")]
+    "from_origin on one tree (nested directories, a prefix-named sibling) under 150 ignore-file configurations (origin, a/, a/b/; plain, directory-only, rooted and negated patterns), 30 of them also with two explicit watch lists: exactly the ignore files of the directories reachable without entering an ignored one - judged by an independent nearest-file-first evaluation with the ignore crate's matcher one file at a time - each tagged with its directory (this composition over the whole tree is what the per-function contracts do not prove: D16)")]
 _promote("C14", lambda e: getattr(e, "vx_scenario", "") in ("discovery_exact_on_a_small_tree", "discovery_rule_bounded"))
 _promote("C18", lambda e: getattr(e, "vx_scenario", "") in ("argv_exact_bounded", "cli_argv"))
